@@ -48,7 +48,7 @@ META = {
     "rule": "case = one schedule (config, worker programs, decision sequence); non-trivial = schedule with >=1 preemption and >=2 threads that each completed a checkout; distinct by (config, programs, switch trace digest)",
     "shards": {"quick": 8, "thorough": 16},
     "soft_s": {"quick": 50, "thorough": 900},
-    "require": ["schedules", "preemptions", "line_events", "blocking_waits", "virtual_timeouts", "quiescent_checks", "async_schedules"],
+    "require": ["schedules", "preemptions", "line_events", "blocking_waits", "virtual_timeouts", "quiescent_checks", "async_schedules", "stress_rounds"],
     "assumptions": ["the scheduler itself preserves mutual exclusion of its substituted locks (self-tested by the selftest mutations and by a lock self-check at start-up)"],
 }
 
@@ -493,7 +493,7 @@ def enumerate_bounded(ctx, sa_pool, sa_exc, sched_mod, cfg, progs, rng, max_pre)
     done = 0
     for i in points:
         for tgt in range(nt):
-            if not ctx.budget_ok():
+            if not ctx.budget_ok(0.85):
                 return done
             s1, _ = run_queuepool_schedule(ctx, sa_pool, sa_exc, sched_mod, cfg, progs, rng, forced={i: tgt})
             done += 1
@@ -502,12 +502,134 @@ def enumerate_bounded(ctx, sa_pool, sa_exc, sched_mod, cfg, progs, rng, max_pre)
                 st2 = max(1, (n1 - i) // ctx.pick({"quick": 6, "thorough": 60}))
                 for j in range(i + 1, n1 + 1, st2):
                     for tgt2 in range(nt):
-                        if not ctx.budget_ok():
+                        if not ctx.budget_ok(0.85):
                             return done
                         run_queuepool_schedule(ctx, sa_pool, sa_exc, sched_mod, cfg, progs, rng, forced={i: tgt, j: tgt2})
                         done += 1
     ctx.count("enum_schedules", done)
     return done
+
+
+def run_os_thread_stress(ctx, rng):
+    """Secondary mode: real, unscheduled OS threads (what the scheduler model omits),
+    with ``sleep(0)`` injected at sampled LINE events of the pool modules to provoke
+    GIL hand-offs.  Only interval-free oracles are used here (the monitor has its own
+    real lock): no connection held by two holders, creator never called beyond the
+    limit, final accounting.  Timeouts are real time and therefore never judged."""
+    import sys
+    import threading
+    import time as rtime
+
+    import sqlalchemy.pool.base as pool_base
+    import sqlalchemy.pool.impl as pool_impl
+    import sqlalchemy.util.queue as sa_queue
+    from sqlalchemy import exc as sa_exc
+    from sqlalchemy import pool as sa_pool
+
+    from vf.mon import sched as sched_mod
+
+    mon = sys.monitoring
+    TOOL = 4
+    codes = []
+    for m in (pool_impl, pool_base, sa_queue):
+        codes.extend(sched_mod.Instrumentation._codes_of(m))
+    tick = [0]
+
+    def on_line(code, lineno):
+        tick[0] += 1
+        if tick[0] % 7 == 0:
+            rtime.sleep(0)
+
+    rounds = ctx.pick({"quick": 3, "thorough": 40})
+    for r in range(rounds):
+        if r >= 1 and not ctx.budget_ok(0.97):
+            break
+        size, over = rng.choice([(1, 0), (1, 1), (2, 1), (2, 0)])
+        limit = size + over
+        lock = threading.Lock()
+        opened = {}
+        holders = {}
+        ids = itertools.count(1)
+        problems = []
+
+        def creator():
+            with lock:
+                n = sum(1 for c in opened.values() if not c.closed and c.cid not in detached)
+                if n >= limit:
+                    problems.append(("stress-queuepool-over-limit", f"creator() with {n} pool-owned open, limit {limit}"))
+                c = MockConn(next(ids))
+                opened[c.cid] = c
+            return c
+
+        detached = set()
+        pool = sa_pool.QueuePool(creator, pool_size=size, max_overflow=over, timeout=20, reset_on_return=None)
+        nthreads = rng.randint(3, 6)
+        plans = [[rng.choice(["ci", "ci", "inv", "det", "drop"]) for _ in range(ctx.pick({"quick": 40, "thorough": 80}))] for _ in range(nthreads)]
+
+        def worker(name, plan):
+            for op in plan:
+                try:
+                    f = pool.connect()
+                except sa_exc.TimeoutError:
+                    ctx.count("stress_real_timeouts")
+                    continue
+                raw = f.dbapi_connection
+                with lock:
+                    if raw.cid in holders:
+                        problems.append(("stress-two-holders", f"connection {raw.cid} handed to {name} while held by {holders[raw.cid]}"))
+                    if raw.closed:
+                        problems.append(("stress-closed-connection-handed-out", f"{raw}"))
+                    holders[raw.cid] = name
+                rtime.sleep(0)
+                with lock:
+                    holders.pop(raw.cid, None)
+                    if op == "det":
+                        detached.add(raw.cid)
+                if op == "ci":
+                    f.close()
+                elif op == "inv":
+                    f.invalidate()
+                    f.close()
+                elif op == "det":
+                    f.detach()
+                    f.close()
+                else:
+                    del f
+                f = None
+
+        try:
+            mon.use_tool_id(TOOL, "vf-stress")
+        except ValueError:
+            pass
+        mon.register_callback(TOOL, mon.events.LINE, on_line)
+        for c in codes:
+            mon.set_local_events(TOOL, c, mon.events.LINE)
+        try:
+            ths = [threading.Thread(target=worker, args=(f"t{i}", plans[i])) for i in range(nthreads)]
+            for t in ths:
+                t.start()
+            for t in ths:
+                t.join(120)
+            stuck = [t for t in ths if t.is_alive()]
+        finally:
+            for c in codes:
+                mon.set_local_events(TOOL, c, 0)
+            mon.register_callback(TOOL, mon.events.LINE, None)
+            mon.free_tool_id(TOOL)
+        if stuck:
+            raise RuntimeError("stress workers did not finish (harness watchdog)")
+        desc = {"stress": [size, over, nthreads]}
+        for mech, msg in problems[:3]:
+            ctx.violation(mech, msg + f" cfg={desc}", desc)
+        if pool.checkedout() != 0:
+            ctx.violation("stress-checkedout-nonzero-at-end", f"checkedout()={pool.checkedout()} cfg={desc}", desc)
+        if pool.checkedin() > size:
+            ctx.violation("stress-idle-over-pool-size", f"checkedin()={pool.checkedin()} cfg={desc}", desc)
+        ctx.count("stress_rounds")
+        ctx.count("stress_checkouts", sum(len(p) for p in plans))
+        ctx.count("stress_line_events", tick[0])
+        ctx.case({"stress": [size, over, nthreads], "round": r, "shard": ctx.shard, "seed": ctx.seed}, nontrivial=True)
+        pool.dispose()
 
 
 def run(ctx):
@@ -560,3 +682,4 @@ def run(ctx):
         cfgi = (ctx.shard + ctx.seed) % len(small)
         cfg, progs = small[cfgi]
         enumerate_bounded(ctx, sa_pool, sa_exc, sched_mod, dict(cfg), progs, rng, max_pre=1 if ctx.quick else 2)
+    run_os_thread_stress(ctx, rng)
